@@ -191,7 +191,9 @@ impl Quantity {
 
         // Heuristic 3
         let removed_exponent = |u: &UnitFactor| {
-            let base_unit = u.unit_id.base_unit_and_factor().0;
+            // The base unit representation is not necessarily canonical (the same base unit
+            // can appear in several factors, e.g. for 'darcy'), so merge the factors first.
+            let base_unit = u.unit_id.base_unit_and_factor().0.canonicalized();
             if let Some(first_factor) = base_unit.into_iter().next() {
                 first_factor.exponent
             } else {
